@@ -23,7 +23,7 @@ func Exec(s core.Schedule) *core.Outcome {
 		zap.ReplaceGlobals(l)
 	}
 	r := &run{sc: sc, cfg: cfg, out: out, models: map[dragonboat.ShardKey]*shardModel{}, lastL: map[string]uint64{}, seenL: map[string]map[uint64]bool{},
-		blocked: map[string]bool{}, clientDelay: map[string]time.Duration{}, backups: map[int]*backupRec{}, leaseTasks: map[string]*leaseTask{}, leaderTables: map[string]uint64{}, deleted: map[string]bool{}, start: time.Now()}
+		blocked: map[string]bool{}, clientDelay: map[string]time.Duration{}, backups: map[int]*backupRec{}, restoreWins: map[string][][2]uint64{}, leaseTasks: map[string]*leaseTask{}, leaderTables: map[string]uint64{}, deleted: map[string]bool{}, start: time.Now()}
 	r.kc = &fsmsim.Cfg{Keys: cfg.Keys}
 	w := NewWorld(WorldCfg{Seed: cfg.Seed, Leaders: cfg.Leaders, Followers: cfg.Followers, SnapshotEntries: cfg.SnapshotEntries, CompactionOverhead: cfg.CompactionOverhead,
 		MaxInMemLogSize: cfg.MaxInMemLogSize, LogCacheSize: cfg.LogCacheSize, MaxMsg: cfg.MaxMsg, PollMs: cfg.PollMs, LeaseMs: cfg.LeaseMs, ReconcileMs: cfg.ReconcileMs,
@@ -90,6 +90,9 @@ func Exec(s core.Schedule) *core.Outcome {
 	}
 	settle()
 	r.refreshLeaderTables()
+	if ms, ok := w.u.Shard("L", 1000); ok {
+		r.metaBaseline = ms.Last
+	}
 	followersUp := cfg.FollowerFirst
 	for i := range sc.Steps {
 		if r.failed() {
@@ -117,7 +120,10 @@ func Exec(s core.Schedule) *core.Outcome {
 			return out
 		}
 	}
-	if cfg.Prop == "C15" {
+	if cfg.Prop == "C06" {
+		r.waitPending()
+		r.checkFatals()
+	} else if cfg.Prop == "C15" {
 		r.drainLeaseTasks()
 		settle()
 		r.checkFatals()
@@ -323,6 +329,8 @@ func (r *run) finish() {
 		out.NonTrivial = out.Probes["follower-advanced"] >= 2 && len(out.Faults) > 0
 	case "C10":
 		out.NonTrivial = out.Probes["raft-linearizable-read-on-lagging-replica"] > 0 || out.Probes["overlapping-calls"] > 0
+	case "C06":
+		out.NonTrivial = out.Probes["poll-entries-checked"] > 0 && (out.Probes["poll-use-snapshot"] > 0 || out.Probes["poll-multi-message"] > 0)
 	case "C07":
 		out.NonTrivial = out.Probes["restore-multi-pair"] > 0 || out.Probes["backup-with-concurrent-writes"] > 0 || out.Faults["raft-snapshot-install"] > 0
 	case "C15":
